@@ -1350,6 +1350,14 @@ func remapIndex(ctx context.Context, mp *mhprimary.MultihashPrimary, buckets Buc
 		// If this file was already remapped, skip it.
 		_, err = os.Stat(doneName)
 		if !os.IsNotExist(err) {
+			// The marker is created before the remapped copy is renamed to
+			// the index file name. If the copy is still there, then it is
+			// complete but was not put in place yet, so do that now.
+			if _, err = os.Stat(tmpName); err == nil {
+				if err = os.Rename(tmpName, fileName); err != nil {
+					return nil, fmt.Errorf("error renaming remapped file %s to %s: %w", tmpName, fileName, err)
+				}
+			}
 			log.Infow("index file already remapped", "file", fileName)
 			indexCount += len(bucketPrefixes)
 			continue
